@@ -336,7 +336,8 @@ def _expfloat(draw):
 LEAP_MIDNIGHTS = [(1972, 183)] + [(y, 1) for y in (1973, 1974, 1975, 1976, 1977, 1978, 1979, 1980)] + [
     (1981, 182), (1982, 182), (1983, 182), (1985, 182), (1988, 1), (1990, 1), (1991, 1), (1992, 183), (1993, 182),
     (1994, 182), (1996, 1), (1997, 182), (1999, 1), (2006, 1), (2009, 1), (2012, 183), (2015, 182), (2017, 1)]
-_NEAR_US = gt.uniform_int(-140 * 10**6, 140 * 10**6)
+_NEAR_US = gt._mix((5, gt.uniform_int(-140 * 10**6, 140 * 10**6)),
+                   (2, st.sampled_from([0, 0, 1, -1, 431, -431, 432, -432, 433, -433, 864, -864])))
 
 
 @st.composite
@@ -418,7 +419,8 @@ def writer_case(draw, real_eop=False):
         propagator=draw(st.sampled_from(["Sgp4", "Sgp4", "Kepler", "J2", None])),
     )
     return dict(el=el, form=form, frame=frame, year=year, doy=doy, micro=micro, meta=meta, eclass=eclass,
-                scale=draw(st.sampled_from(SCALES)))
+                scale=draw(st.sampled_from(SCALES)), positional=draw(st.booleans()),
+                named=draw(st.sampled_from(["names", "names", "lower", "objects"])))
 
 
 def _angle_err(got_deg, want_deg):
@@ -465,7 +467,15 @@ def check_writer(case):
         relabel_error = abs((date.change_scale("UTC").datetime - epoch).total_seconds())
         if relabel_error > 1e-6:
             return dict(nt=False, cls=[f"scale:{scale}", "relabel-moves-the-instant(C03)"])
-    orb = Orbit(coords, date, "TLE", "TEME", meta.get("propagator", "Sgp4"), **data)
+    how = case.get("named", "names")
+    if how == "objects":
+        from beyond.frames import get_frame
+        from beyond.orbits.forms import TLE as TLE_FORM
+
+        form_spec, frame_spec = TLE_FORM, get_frame("TEME")
+    else:
+        form_spec, frame_spec = ("tle" if how == "lower" else "TLE"), "TEME"
+    orb = Orbit(coords, date, form_spec, frame_spec, meta.get("propagator", "Sgp4"), **data)
     native = case["form"] == "tle" and case["frame"] == "TEME"
     if not native:
         if case["frame"] in ("ITRF", "PEF"):
@@ -478,7 +488,10 @@ def check_writer(case):
     else:
         ref = np.asarray(coords, float)
     before = np.asarray(orb.base, float).copy()
-    tle = Tle.from_orbit(orb, **kwargs)
+    if kwargs and case.get("positional"):
+        tle = Tle.from_orbit(orb, kwargs["name"], kwargs["norad_id"], kwargs["cospar_id"])
+    else:
+        tle = Tle.from_orbit(orb, **kwargs)
     if not np.array_equal(before, np.asarray(orb.base, float)) or orb.form.name != case["form"]:
         raise Violation("writer:mutated", "from_orbit changed the orbit it was given")
     lines = tle.text.split("\n")
@@ -556,7 +569,11 @@ def check_writer(case):
             raise Violation(f"writer:parse-back-{nm}", f"{nm} given as {want!r}, read back from the written text "
                             f"as {got!r}; lines {lines}")
     cls = [f"form:{case['form']}", f"frame:{case['frame']}", f"scale:{scale}", f"epoch:{case.get('eclass', 'uniform')}",
-           f"ids:{meta['via']}", f"propagator:{meta.get('propagator', 'Sgp4')}"]
+           f"ids:{meta['via']}", f"propagator:{meta.get('propagator', 'Sgp4')}", f"form/frame-by:{how}"]
+    if kwargs and case.get("positional"):
+        cls.append("from_orbit-positional")
+    if case.get("micro") in (0, 1, -1, 431, -431, 432, -432, 433, -433, 864, -864):
+        cls.append("epoch-tie")
     if el["e"] > 0.9:
         cls.append("e>0.9")
     if any(359.99995 <= deg[k] % 360 < 360 for k in (1, 3, 4)):
@@ -630,9 +647,13 @@ def check_reject(case):
     for kind, what, b1, b2 in corruptions(l1, l2):
         n += 1
         arg = ([f["name"]] if f.get("name") else []) + [b1, b2] if as_list else f"{name}{b1}\n{b2}"
+        given = list(arg) if as_list else None
         try:
             t = Tle(arg)
         except TleParseError:
+            if as_list and arg != given:
+                raise Violation("argument-modified", f"{what}: Tle(lines) refused the lines but changed the caller's "
+                                f"list ({len(given)} lines given, {len(arg)} left)") from None
             continue
         raise Violation(f"accepted:{kind}", f"{what}: accepted (element_nb={t.element_nb}, norad={t.norad_id}); "
                         f"lines {[b1, b2]}", what=what)
@@ -689,6 +710,7 @@ def fs_case(draw):
     filler = draw(st.lists(st.tuples(st.integers(0, 3 * n), st.sampled_from(["", "   ", f"{mark} comment", f"{mark}1 25544U",
                                                                               "\t"])), max_size=4))
     return dict(entries=entries, three=three, filler=[list(x) for x in filler], comments=comments,
+                together=draw(st.integers(0, 2)) == 0,
                 error=draw(st.sampled_from(["warn", "ignore", "raise", "default"])),
                 trailing_newline=draw(st.booleans()))
 
@@ -786,8 +808,20 @@ def check_from_string(case):
     got = []
     raised = None
     try:
-        for t in Tle.from_string(text, **kw):
-            got.append(t)
+        if case.get("together"):
+            # a second reading of another text is alive at the same time, advanced in step with this one
+            other_text = "\n".join(reversed(text.split("\n")[:4])) + "\n" + text
+            other = Tle.from_string(other_text, error="ignore")
+            it = Tle.from_string(text, **kw)
+            while True:
+                next(other, None)
+                try:
+                    got.append(next(it))
+                except StopIteration:
+                    break
+        else:
+            for t in Tle.from_string(text, **kw):
+                got.append(t)
     except TleParseError as exc:
         raised = exc
     lines = [tuple(t.text.split("\n")) for t in got]
@@ -824,6 +858,8 @@ def check_from_string(case):
                 if e[0] is not None and t.name != e[0]:
                     raise Violation("from_string:name", f"entry named {t.name!r}, its name line says {e[0]!r}")
     cls = ["3-line" if case["three"] else "2-line", f"error:{case['error']}", f"comments:{comments}"]
+    if case.get("together"):
+        cls.append("two-readings-alive")
     cls += sorted({f"cor:{e['corrupt']['kind']}" for e in case["entries"] if e["corrupt"]})
     if len(expected) > sum(1 for e in case["entries"] if not e["corrupt"]):
         cls.append("cross-entry-pair")
@@ -913,6 +949,9 @@ def check_history(case):
             raise Violation("history:tle-changed", f"step {step}: the Tle object itself changed "
                             f"({_parse_summary(tle)} / {tle.text!r})")
 
+    import pickle
+
+    frozen = pickle.dumps(tle)  # taken BEFORE anything is handed out or edited
     hand_out(-1)
     for step, op in enumerate(case["ops"]):
         name = op["op"]
@@ -959,10 +998,14 @@ def check_history(case):
                                     f"TLE's text: {d[1]}")
             elif orb.form.name == "tle" and orb.frame.name == "TEME":
                 # an edited orbit must be written as it is NOW (writer clause, checked on e and the counters)
+                before = _orbit_snapshot(orb)
                 try:
                     t2 = Tle.from_orbit(orb)
                 except ValueError:
                     t2 = None  # edited out of what a TLE can hold
+                    if _orbit_snapshot(orb) != before:
+                        raise Violation("history:failed-write-changed-orbit", f"step {step}: from_orbit refused the "
+                                        "orbit but left it changed") from None
                 if t2 is not None:
                     p = tf.parse_lines(*t2.text.split("\n"))
                     want_e = float(orb.e)
@@ -982,6 +1025,10 @@ def check_history(case):
         # invariants after every step
         tle_untouched(step)
         hand_out(step)
+    thawed = pickle.loads(frozen)
+    if _parse_summary(thawed) != summary0 or _orbit_snapshot(thawed.orbit()) != first["snap"]:
+        raise Violation("history:early-dump-changed", "a pickle of the Tle taken before the edits does not give back "
+                        "the Tle / the orbit of the start")
     return dict(nt=any(edited), cls=sorted(labels) + gt.classes(f)[:2])
 
 
